@@ -305,9 +305,43 @@ func bodies() []body {
 			}}
 	}
 	bs = append(bs, hmm(1, 1), hmm(2, 1), hmm(2, 2), hmm(3, 2))
+	bs = append(bs, body{name: "vector.Hmm[3 states->2 emissions;start={0};final={2};chunk=3;steps=2]", nested: true,
+		sizes: func(T int) []int { return []int{2} },
+		run: func(n int, p tp.ThreadPool) ([]float64, error) {
+			pi := NewDenseFloat64Vector([]float64{0.5, 0.25, 0.25})
+			tr := NewDenseFloat64Matrix([]float64{0.5, 0.25, 0.25, 0.25, 0.5, 0.25, 0.25, 0.25, 0.5}, 3, 3)
+			e1, err := scalarEstimator.NewCategoricalEstimator([]float64{0.25, 0.75})
+			if err != nil {
+				return nil, err
+			}
+			e2, err := scalarEstimator.NewCategoricalEstimator([]float64{0.75, 0.25})
+			if err != nil {
+				return nil, err
+			}
+			var liks []float64
+			hook := generic.BaumWelchHook{Value: func(h generic.BasicHmm, i int, l, eps float64) {
+				if !math.IsNaN(l) {
+					liks = append(liks, l)
+				}
+			}}
+			e, err := vectorEstimator.NewHmmEstimator(pi, tr, []int{0, 1, 0}, []int{0}, []int{2}, []ScalarEstimator{e1, e2}, 1e-8, 2, hook)
+			if err != nil {
+				return nil, err
+			}
+			e.ChunkSize = 3
+			xs := []ConstVector{NewDenseFloat64Vector([]float64{1, 1, 0, 1, 0, 0}), NewDenseFloat64Vector([]float64{0, 0, 1, 1})}
+			if err := e.EstimateOnData(xs, nil, p); err != nil {
+				return nil, err
+			}
+			est, err := e.GetEstimate()
+			if err != nil {
+				return nil, err
+			}
+			return append(params(est.GetParameters()), liks...), nil
+		}})
 
-	// vector mixture over ScalarIid components
-	bs = append(bs, body{name: "vector.Mixture[ScalarIid(Normal)x2;steps=2]", nested: true,
+	// vector mixture over ScalarId components
+	bs = append(bs, body{name: "vector.Mixture[ScalarId(Normal,Normal)x2;steps=2]", nested: true,
 		sizes: func(T int) []int { return []int{T + 1} },
 		run: func(n int, p tp.ThreadPool) ([]float64, error) {
 			mk := func(mu float64) (VectorEstimator, error) {
@@ -315,7 +349,11 @@ func bodies() []body {
 				if err != nil {
 					return nil, err
 				}
-				return vectorEstimator.NewScalarIid(e0, 2)
+				e1, err := scalarEstimator.NewNormalEstimator(-mu, 1, 0.125)
+				if err != nil {
+					return nil, err
+				}
+				return vectorEstimator.NewScalarId(e0, e1)
 			}
 			a, err := mk(-1)
 			if err != nil {
